@@ -814,6 +814,12 @@ func (f *fileStore) flushPages() error {
 	f.lockExclusive()
 	defer f.unlockExclusive()
 	verifPoint(f, "flushStart")
+	return f.flushPagesLocked()
+}
+
+// flushPagesLocked writes all dirty pages and the header. the caller holds
+// the exclusive lock.
+func (f *fileStore) flushPagesLocked() error {
 	for _, v := range f.cache.cache {
 		node := v.Value.(*cacheEntry).val
 		if !node.isDirty() {
